@@ -2904,3 +2904,115 @@ func latestClockOnlyOrdersTheQueue(c *Ctx, r *Report, rule string) {
 	r.Hold(rule, r.Key(rule, nil, "examined", ""), token.NoPos, true, fmt.Sprintf("%d branches of the fetcher examined", n))
 	r.Floor(rule, "branches of the fetcher", n, 10)
 }
+
+// workerSlotsArePositive: the number of slots of the semaphore that bounds the fetch workers is known to be positive
+// where the semaphore is made — a test that implies it, or a positive default, on every path. A semaphore of weight
+// zero or less never grants a slot: the dispatcher's first acquisition blocks until the deadline and the load comes
+// back empty, with no error (or never, without a deadline).
+func workerSlotsArePositive(c *Ctx, r *Report, rule string) {
+	p := c.P
+	n := 0
+	for _, fn := range p.Fns {
+		if fn.Body == nil || fn.Pkg.PkgPath != p.pkgPath("entry") {
+			continue
+		}
+		fn := fn
+		var sites []*ast.CallExpr
+		walkNoLit(fn.Body, func(nd ast.Node) bool {
+			if call, ok := nd.(*ast.CallExpr); ok {
+				if cf := p.Callee(fn, call); cf != nil && cf.Name() == "NewWeighted" && cf.Pkg() != nil && strings.HasSuffix(cf.Pkg().Path(), "sync/semaphore") {
+					sites = append(sites, call)
+				}
+			}
+			return true
+		})
+		if len(sites) == 0 {
+			continue
+		}
+		keyOf := func(e ast.Expr) string {
+			e = ast.Unparen(e)
+			for {
+				cv, ok := e.(*ast.CallExpr)
+				if !ok || len(cv.Args) != 1 {
+					break
+				}
+				if tv, ok := fn.Pkg.TypesInfo.Types[cv.Fun]; !ok || !tv.IsType() {
+					break
+				}
+				e = ast.Unparen(cv.Args[0]) // a conversion
+			}
+			if _, k, ok := p.PathKey(fn, e); ok {
+				return k
+			}
+			return ""
+		}
+		fl := &Flow{P: p, Fn: fn, Entry: Facts{}}
+		fl.Edge = func(cond ast.Expr, taken bool, f Facts) {
+			for _, a := range splitCond(cond, taken) {
+				var subj ast.Expr
+				nc, ok := p.normalizeCmp(fn, a, func(e ast.Expr) bool {
+					if keyOf(e) != "" {
+						subj = e
+						return true
+					}
+					return false
+				})
+				if ok && subj != nil && nc.impliesPositive() {
+					f["pos|"+keyOf(subj)] = true
+				}
+			}
+		}
+		fl.Node = func(nd ast.Node, f Facts) {
+			walkNoLit(nd, func(m ast.Node) bool {
+				switch x := m.(type) {
+				case *ast.AssignStmt:
+					for i, l := range x.Lhs {
+						k := keyOf(l)
+						if k == "" {
+							continue
+						}
+						delete(f, "pos|"+k)
+						if len(x.Rhs) == len(x.Lhs) {
+							if v, ok := p.constInt(fn, x.Rhs[i]); ok && v > 0 {
+								f["pos|"+k] = true
+							} else if rk := keyOf(x.Rhs[i]); rk != "" && f["pos|"+rk] {
+								f["pos|"+k] = true
+							}
+						}
+					}
+				case *ast.ValueSpec:
+					for i, nm := range x.Names {
+						if i < len(x.Values) {
+							if v, ok := p.constInt(fn, x.Values[i]); ok && v > 0 {
+								f["pos|"+keyOf(nm)] = true
+							}
+						}
+					}
+				}
+				return true
+			})
+		}
+		fl.Run()
+		fl.Visit(func(_ *cfgBlk, nd ast.Node, before Facts) {
+			walkNoLit(nd, func(m ast.Node) bool {
+				call, ok := m.(*ast.CallExpr)
+				if !ok {
+					return true
+				}
+				for _, s := range sites {
+					if s != call || len(call.Args) != 1 {
+						continue
+					}
+					n++
+					k := keyOf(call.Args[0])
+					v, isConst := p.constInt(fn, call.Args[0])
+					r.Check((isConst && v > 0) || (k != "" && before["pos|"+k]), rule, r.Key(rule, fn, "slots-positive", ""), call.Pos(),
+						"the weight of the worker semaphore is known to be positive here",
+						fmt.Sprintf("%s makes the worker semaphore with a weight that is not known to be positive (`%s`): with a concurrency of -1 — 'no limit' everywhere else in the options — no slot is ever granted, the dispatcher waits for the deadline and every loader comes back empty without an error, or never", fn.Name, types.ExprString(call.Args[0])))
+				}
+				return true
+			})
+		})
+	}
+	r.Floor(rule, "worker semaphores", n, 1)
+}
